@@ -14,6 +14,20 @@ import logging
 from .vloop import VLoop
 
 HORIZON = 4000
+STUCK_AFTER = 12            # seconds of wall time for ONE execution (they take milliseconds): a coroutine that never yields
+STUCK_AFTER_NEXT = 1.5      # ... once one execution of this process was stuck, the following ones are given up on much sooner
+_stuck_seen = 0
+
+
+class ExecutionStuck(Exception):
+    """Raised (from a timer signal) inside code that has been running for STUCK_AFTER seconds without ever returning
+    to the event loop - a busy loop.  asyncio stores it in the task, so the caller shows up as 'raised ExecutionStuck'."""
+
+
+def _alarm(signum, frame):
+    global _stuck_seen
+    _stuck_seen += 1
+    raise ExecutionStuck("no return to the event loop for %s s (busy loop?)" % (STUCK_AFTER if _stuck_seen == 1 else STUCK_AFTER_NEXT))
 
 
 class Caller:
@@ -76,6 +90,12 @@ class World:
 def execute(make_world, chooser, trace=False):
     """Run one schedule.  Returns (world, status) with status in {quiescent, horizon}."""
     logging.disable(logging.CRITICAL)      # the drivers log every injected fault; output is not an observation
+    import signal
+    import threading
+    armed = threading.current_thread() is threading.main_thread()
+    if armed:
+        signal.signal(signal.SIGALRM, _alarm)
+        signal.setitimer(signal.ITIMER_REAL, STUCK_AFTER if not _stuck_seen else STUCK_AFTER_NEXT)
     loop = VLoop()
     loop.enter()
     w = make_world()
@@ -145,6 +165,8 @@ def execute(make_world, chooser, trace=False):
         w.final_time = loop.time()
         obs = w.finish()
     finally:
+        if armed:
+            signal.setitimer(signal.ITIMER_REAL, 0)
         try:
             loop.shutdown()
         finally:
